@@ -16,3 +16,6 @@ func VerifUnmarshalElement(el *etree.Element, v interface{}) error { return unma
 func (sp *ServiceProvider) VerifDecryptElement(el *etree.Element) (*etree.Element, error) {
 	return sp.decryptElement(el)
 }
+
+// VerifXMLToBytes is xmlToBytes: the package's XML writer.
+func VerifXMLToBytes(doc *etree.Document) ([]byte, error) { return xmlToBytes(doc) }
